@@ -27,6 +27,18 @@ def run(spec, ctx):
             path = tmp / f"e2e_{idx}.rtdc"
             comp = None if rng.random() < 0.5 else {"compression": None}
             gd.write_model(path, model, compression=comp)
+            internal = bool(rng.random() < 0.4)
+            if internal:
+                # features kept in an internal basin (rows shared between events): they are
+                # part of the file and must be exposed over HTTP as they are locally
+                k_ = int(rng.integers(1, 5))
+                with dclab.RTDCWriter(path, mode="append") as hw:
+                    hw.store_basin(basin_name="internal", basin_type="internal",
+                                   basin_format="h5dataset", basin_locs=["basin_events"],
+                                   basin_map=rng.integers(0, k_, model["n"]).astype(np.uint64),
+                                   internal_data={"userdef3": 7e6 + np.arange(k_, dtype=float)},
+                                   basin_feats=["userdef3"])
+                ctx.count("e2e_files_with_internal_basin")
             blob = path.read_bytes()
             # two out of three cases use the socket-free transport (same HTTP semantics)
             ep = srv if idx % 3 == 0 else fake
@@ -43,6 +55,15 @@ def run(spec, ctx):
             try:
                 with fmt_http.RTDC_HTTP(url) as dh, fmt_hdf5.RTDC_HDF5(path) as dl:
                     diffs = dscmp.compare_datasets(dh, dl)
+                    fb_h, fb_l = sorted(dh.features_basin), sorted(dl.features_basin)
+                    if fb_h != fb_l:
+                        diffs.append({"features_basin_http": fb_h, "features_basin_local": fb_l})
+                    for f_ in sorted(set(fb_h) & set(fb_l)):
+                        if f_.startswith("basinmap"):
+                            continue
+                        d_ = dscmp.feature_equal(dh[f_], dl[f_], f_)
+                        if d_:
+                            diffs.append({"basin_feature": f_, "diff": d_})
                     if any("Timeout" in json.dumps(d, default=str) for d in diffs):
                         ctx.count("skipped_transport_timeout")
                         continue
